@@ -1,5 +1,245 @@
 import SemVerif.Spec.Preds
+import SemVerif.Spec.PrecTree
 import SemVerif.Inventory
-/-! # Property C07 — theorems (under construction) -/
+/-!
+# Property C07 — operator chains are bracketed by the documented priority table
+
+`C07_fold_correct`: the operator-stack fold of the analyzer (`foldChain`, mirror of
+`expression_operations_priority`) yields, for **every** priority table, operand type and chain
+length, a tree with the chain's in-order tokens that satisfies `Correct`.
+`C07_fold_unique`: any tree with these two properties is that tree — so it is *the* precedence
+tree.  The model runs the fold with `Generated.prio`, regenerated from `ast.rs` on every run.
+That the emitted `ExpressionOperation`s, read through their register operands, are this tree is
+checked on the implementation by the correspondence run (predicate `P_C07`: the bracketing read
+off the stack equals the reference tree `specTree`), exhaustively over the six priority classes.
+-/
 namespace SemVerif
+
+variable {α : Type} (prio : Op → Nat)
+
+theorem flat_length_pos (t : W α) : 0 < t.flat.length := by
+  cases t <;> simp [W.flat] <;> omega
+
+theorem mem_flat_op (t : W α) (o : Op) : Tok.op o ∈ t.flat ↔ o ∈ t.ops := by
+  induction t with
+  | atom a => simp [W.flat, W.ops]
+  | pair l o' r ihl ihr =>
+    simp only [W.flat, W.ops, List.mem_append, List.mem_cons, ihl, ihr]
+    constructor
+    · rintro (h | h | h)
+      · exact Or.inl h
+      · exact Or.inr (Or.inl (by injection h))
+      · exact Or.inr (Or.inr h)
+    · rintro (h | h | h)
+      · exact Or.inl h
+      · exact Or.inr (Or.inl (by rw [h]))
+      · exact Or.inr (Or.inr h)
+
+/-- Uniqueness: the in-order token sequence and the priority constraints determine the tree. -/
+theorem correct_unique (t1 t2 : W α) (h1 : Correct prio t1) (h2 : Correct prio t2)
+    (hf : t1.flat = t2.flat) : t1 = t2 := by
+  induction t1 generalizing t2 with
+  | atom a =>
+    cases t2 with
+    | atom b => simp [W.flat] at hf; rw [hf]
+    | pair l o r =>
+      have := congrArg List.length hf
+      have hl := flat_length_pos l
+      simp [W.flat] at this
+      omega
+  | pair l1 o1 r1 ihl ihr =>
+    cases t2 with
+    | atom b =>
+      have := congrArg List.length hf
+      have hl := flat_length_pos l1
+      simp [W.flat] at this
+      omega
+    | pair l2 o2 r2 =>
+      obtain ⟨c1l, c1r, c1lo, c1ro⟩ := h1
+      obtain ⟨c2l, c2r, c2lo, c2ro⟩ := h2
+      simp only [W.flat] at hf
+      rcases List.append_eq_append_iff.mp hf with ⟨a', ha1, ha2⟩ | ⟨c', hc1, hc2⟩
+      · -- flat l2 = flat l1 ++ a'
+        cases a' with
+        | nil =>
+          simp at ha1 ha2
+          obtain ⟨ho, hr⟩ := ha2
+          have := ihl l2 c1l c2l ha1.symm
+          have := ihr r2 c1r c2r hr
+          subst_vars; rfl
+        | cons x a'' =>
+          simp at ha2
+          obtain ⟨hx, hr⟩ := ha2
+          subst hx
+          have m2 : o2 ∈ r1.ops := (mem_flat_op r1 o2).mp (by rw [hr]; simp)
+          have m1 : o1 ∈ l2.ops := (mem_flat_op l2 o1).mp (by rw [ha1]; simp)
+          have := c1ro o2 m2
+          have := c2lo o1 m1
+          omega
+      · cases c' with
+        | nil =>
+          simp at hc1 hc2
+          obtain ⟨ho, hr⟩ := hc2
+          have := ihl l2 c1l c2l hc1
+          have := ihr r2 c1r c2r hr.symm
+          subst_vars; rfl
+        | cons x c'' =>
+          simp at hc2
+          obtain ⟨hx, hr⟩ := hc2
+          subst hx
+          have m1 : o1 ∈ r2.ops := (mem_flat_op r2 o1).mp (by rw [hr]; simp)
+          have m2 : o2 ∈ l1.ops := (mem_flat_op l1 o2).mp (by rw [hc1]; simp)
+          have := c2ro o1 m1
+          have := c1lo o2 m2
+          omega
+
+/-- stack invariant; value stack and operator stack are top-first -/
+inductive StackInv : List (W α) → List Op → Prop
+  | base (v : W α) : Correct prio v → StackInv [v] []
+  | push (v vp : W α) (vs : List (W α)) (o : Op) (os : List Op) :
+      StackInv (vp :: vs) os → Correct prio v →
+      (∀ o' ∈ v.ops, prio o < prio o') →        -- everything above `o` binds tighter
+      (∀ o' ∈ vp.ops, prio o ≤ prio o') →       -- everything merged below is ≥ `o`
+      (∀ o' ∈ os.head?, prio o' < prio o) →      -- operator stack strictly increasing
+      StackInv (v :: vp :: vs) (o :: os)
+
+/-- tokens of the whole stack, bottom to top -/
+def stackFlat : List (W α) → List Op → List (Tok α)
+  | [v], _ => v.flat
+  | v :: vs, o :: os => stackFlat vs os ++ Tok.op o :: v.flat
+  | _, _ => []
+
+theorem popWhile_inv (p : Nat) (os : List Op) : ∀ (vs : List (W α)),
+    StackInv prio vs os → (∀ v ∈ vs.head?, ∀ o' ∈ v.ops, p ≤ prio o') →
+    let r := popWhile prio p vs os
+    StackInv prio r.1 r.2 ∧ stackFlat r.1 r.2 = stackFlat vs os ∧
+    (∀ v ∈ r.1.head?, ∀ o' ∈ v.ops, p ≤ prio o') ∧ (∀ o' ∈ r.2.head?, prio o' < p) := by
+  induction os with
+  | nil =>
+    intro vs h htop
+    cases h with
+    | base v hv =>
+      simp only [popWhile]
+      refine ⟨StackInv.base v hv, ?_, htop, by simp⟩
+      simp
+  | cons o os ih =>
+    intro vs h htop
+    cases h with
+    | push v vp vs' _ _ hrest hv habove hbelow hinc =>
+      simp only [popWhile]
+      split
+      · rename_i hp
+        -- reduce: new top = pair vp o v
+        have hnew : StackInv prio (W.pair vp o v :: vs') os := by
+          cases hrest with
+          | base _ hvp =>
+            exact StackInv.base _ ⟨hvp, hv, hbelow, habove⟩
+          | push _ vpp vs'' o2 os2 hrest2 hvp habove2 hbelow2 hinc2 =>
+            refine StackInv.push _ vpp vs'' o2 os2 hrest2 ⟨hvp, hv, hbelow, habove⟩ ?_ hbelow2 hinc2
+            intro o' ho'
+            simp [W.ops] at ho'
+            have hlt : prio o2 < prio o := hinc o2 (by simp)
+            rcases ho' with h | h | h
+            · exact habove2 o' h
+            · rw [h]; exact hlt
+            · have := habove o' h; omega
+        have htop' : ∀ w ∈ (W.pair vp o v :: vs').head?, ∀ o' ∈ w.ops, p ≤ prio o' := by
+          intro w hw o' ho'
+          simp at hw; subst hw
+          simp [W.ops] at ho'
+          rcases ho' with h | h | h
+          · have := hbelow o' h; omega
+          · rw [h]; exact hp
+          · have := habove o' h; omega
+        have := ih (W.pair vp o v :: vs') hnew htop'
+        obtain ⟨a, b, c, d⟩ := this
+        refine ⟨a, ?_, c, d⟩
+        rw [b]
+        cases hrest with
+        | base _ _ => simp [stackFlat, W.flat]
+        | push _ vpp vs'' o2 os2 _ _ _ _ _ => simp [stackFlat, W.flat]
+      · rename_i hp
+        refine ⟨StackInv.push v vp vs' o os hrest hv habove hbelow hinc, rfl, htop, ?_⟩
+        intro o' ho'; simp at ho'; subst ho'; omega
+
+theorem stackInv_nonempty {vs : List (W α)} {os : List Op} (h : StackInv prio vs os) :
+    vs ≠ [] := by cases h <;> simp
+
+theorem step_inv (st : List (W α) × List Op) (x : Op × α) (h : StackInv prio st.1 st.2)
+    (htop : ∀ v ∈ st.1.head?, v.ops = []) :
+    let r := foldStep prio st x
+    StackInv prio r.1 r.2 ∧ stackFlat r.1 r.2 = stackFlat st.1 st.2 ++ [Tok.op x.1, Tok.val x.2] ∧
+    (∀ v ∈ r.1.head?, v.ops = []) := by
+  have hp := popWhile_inv prio (prio x.1) st.2 st.1 h
+    (by intro v hv o' ho'; rw [htop v hv] at ho'; simp at ho')
+  obtain ⟨a, b, c, d⟩ := hp
+  simp only [foldStep]
+  generalize hr : popWhile prio (prio x.1) st.1 st.2 = r at a b c d
+  obtain ⟨rv, ro⟩ := r
+  simp only at a b c d ⊢
+  have hne := stackInv_nonempty prio a
+  cases rv with
+  | nil => exact absurd rfl hne
+  | cons vp vs =>
+    refine ⟨StackInv.push (W.atom x.2) vp vs x.1 ro a trivial ?_ ?_ d, ?_, ?_⟩
+    · intro o' ho'; simp [W.ops] at ho'
+    · intro o' ho'; exact c vp (by simp) o' ho'
+    · rw [← b]; simp [stackFlat, W.flat]
+    · intro v hv; simp at hv; subst hv; rfl
+
+theorem foldl_inv (rest : List (Op × α)) : ∀ (st : List (W α) × List Op),
+    StackInv prio st.1 st.2 → (∀ v ∈ st.1.head?, v.ops = []) →
+    let r := rest.foldl (foldStep prio) st
+    StackInv prio r.1 r.2 ∧
+      stackFlat r.1 r.2 = stackFlat st.1 st.2 ++ rest.flatMap (fun x => [Tok.op x.1, Tok.val x.2]) := by
+  induction rest with
+  | nil => intro st h _; simp [h]
+  | cons x tl ih =>
+    intro st h htop
+    obtain ⟨a, b, c⟩ := step_inv prio st x h htop
+    obtain ⟨a', b'⟩ := ih (foldStep prio st x) a c
+    refine ⟨a', ?_⟩
+    simp only [List.foldl_cons]
+    rw [b', b]
+    simp
+
+/-- C07 on the model: the fold yields a tree with the chain's in-order token sequence that
+    satisfies the priority constraints — for every table, every operand type, every length. -/
+theorem C07_fold_correct (v0 : α) (rest : List (Op × α)) :
+    (foldChain prio v0 rest).flat = chainFlat v0 rest ∧ Correct prio (foldChain prio v0 rest) := by
+  have h0 : StackInv prio [(W.atom v0 : W α)] ([] : List Op) := StackInv.base _ trivial
+  obtain ⟨a, b⟩ := foldl_inv prio rest (([W.atom v0], []) : List (W α) × List Op) h0
+    (by intro v hv; simp at hv; subst hv; rfl)
+  simp only [foldChain]
+  generalize List.foldl (foldStep prio) ([W.atom v0], []) rest = st at a b
+  have hp := popWhile_inv prio 0 st.2 st.1 a (by intros; omega)
+  obtain ⟨a2, b2, _, d2⟩ := hp
+  generalize popWhile prio 0 st.1 st.2 = r at a2 b2 d2
+  obtain ⟨rv, ro⟩ := r
+  simp only at a2 b2 d2 ⊢
+  cases a2 with
+  | base v hv =>
+    simp [stackFlat] at b2
+    simp [List.headD, chainFlat]
+    refine ⟨?_, hv⟩
+    rw [b2, b]; simp [stackFlat, W.flat]
+  | push v vp vs o os _ _ _ _ _ =>
+    have := d2 o (by simp)
+    omega
+
+/-- …and therefore it is *the* precedence tree: any tree with these two properties is equal to it. -/
+theorem C07_fold_unique (v0 : α) (rest : List (Op × α)) (t : W α)
+    (hf : t.flat = chainFlat v0 rest) (hc : Correct prio t) : t = foldChain prio v0 rest := by
+  obtain ⟨f, c⟩ := C07_fold_correct prio v0 rest
+  exact correct_unique prio t _ hc c (by rw [hf, f])
+
+
+/-- the table the analyzer publishes: priorities in source are those the model runs with (regenerated) -/
+theorem C07_table : (Generated.prio .multiply, Generated.prio .divide, Generated.prio .plus, Generated.prio .minus) = (9, 8, 5, 4) := by decide
+
+/-- non-vacuity / documentation example: `a / b * c * d` folds to `((a / b) * c) * d`... with the
+published table `*` (9) binds tighter than `/` (8): `a / ((b * c) * d)` -/
+example : (foldChain Generated.prio 'a' [(.divide, 'b'), (.multiply, 'c'), (.multiply, 'd')]).flat =
+    chainFlat 'a' [(.divide, 'b'), (.multiply, 'c'), (.multiply, 'd')] := (C07_fold_correct _ _ _).1
+
 end SemVerif
